@@ -2,6 +2,7 @@ import Proofs.C13Exec
 import Proofs.C13Conc
 import Proofs.C13Cancel
 import Proofs.C13Metrics
+import Proofs.C13Refine
 /-!
 # C13 — retries, idempotence and speculative execution (property theorems)
 
@@ -409,6 +410,60 @@ theorem C13_metrics_exact (pre rest : List (Nat × Nat)) :
 example : (QM.run {} [(1, 10), (2, 30), (1, 21)]) =
     (⟨3, [⟨1, 2, 31⟩, ⟨2, 1, 30⟩]⟩, [⟨0, 1, 10⟩, ⟨1, 1, 30⟩, ⟨2, 2, 31⟩]) ∧
     (QM.run {} [(1, 10), (2, 30), (1, 21)]).1.latency = 20 := by decide
+
+/-- **the two models agree**: the interleaving machine of the concurrent theorems, run with ONE execution that is
+    left alone (its attempt completes with the scripted outcome, it decides, …) over usable hosts, sends exactly as
+    many requests as the sequential model of `queryExecutor.do` makes attempts, counts the same `Attempts()` and
+    ends — for every statement kind, policy (arbitrary decision functions), outcome sequence, host list, counter
+    value; so every bound proved for the machine is a bound on `do`, and the machine adds nothing to a single
+    execution -/
+theorem C13_machine_refines_loop (req : Req) (pol : Option Policy) (outcome : Nat → Res) (fuel : Nat) (ids : List Nat)
+    (k cnt cons : Nat)
+    (hf : (doQuery req pol outcome ExecutorConc.allUp fuel ids k cnt cons).final ≠ .outOfFuel) :
+    let out := doQuery req pol outcome ExecutorConc.allUp fuel ids k cnt cons
+    let m := ExecutorConc.run pol (ExecutorConc.init cnt ids.length 1) (.launch 0 :: ExecutorConc.seqSched outcome fuel k)
+    m.sent = out.attempts.length ∧ m.cnt = out.cnt ∧ m.exs = [.done] := by
+  intro out m
+  cases fuel with
+  | zero => exact absurd rfl hf
+  | succ f =>
+    cases ids with
+    | nil =>
+      have hl : ExecutorConc.step pol (ExecutorConc.init cnt 0 1) (.launch 0) =
+          { ExecutorConc.init cnt 0 1 with exs := [.done] } := by
+        simp [ExecutorConc.step, ExecutorConc.init, ExecutorConc.M.sendNext]
+      have hm : m = { ExecutorConc.init cnt 0 1 with exs := [.done] } := by
+        show ExecutorConc.run pol _ _ = _
+        simp only [ExecutorConc.run, List.foldl_cons, List.length_nil]
+        rw [hl]
+        exact ExecutorConc.run_done pol outcome _ _ _ rfl
+      have ho : out = ⟨[], .noConnections, cnt, cons⟩ := by
+        show doLoop req pol outcome ExecutorConc.allUp (f+1) [] k cnt cons none = _
+        simp [doLoop, nextUsable]
+      rw [hm, ho]
+      simp [ExecutorConc.init]
+    | cons h rest =>
+      have hl : ExecutorConc.step pol (ExecutorConc.init cnt (h :: rest).length 1) (.launch 0) =
+          (⟨cnt, 1, rest.length, [.inflight], 0, []⟩ : ExecutorConc.M) := by
+        simp [ExecutorConc.step, ExecutorConc.init, ExecutorConc.M.sendNext]
+      have hm : m = ExecutorConc.run pol
+          (⟨cnt, 1, rest.length, [.inflight], 0, []⟩ : ExecutorConc.M)
+          (ExecutorConc.seqSched outcome (f+1) k) := by
+        show ExecutorConc.run pol _ _ = _
+        simp only [ExecutorConc.run, List.foldl_cons]
+        rw [hl]
+      have := ExecutorConc.refine_flight req pol outcome f h rest k cnt cons none
+        (⟨cnt, 1, rest.length, [.inflight], 0, []⟩ : ExecutorConc.M) rfl rfl rfl hf
+      have ho : out = doLoop req pol outcome ExecutorConc.allUp (f+1) (h :: rest) k cnt cons none := rfl
+      rw [hm, ho]
+      have h1 := this.1
+      simp only at h1
+      exact ⟨by omega, this.2.1, this.2.2⟩
+
+example : (ExecutorConc.run (some (downgradingPolicyL [4, 1])) (ExecutorConc.init 0 3 1)
+      (.launch 0 :: ExecutorConc.seqSched (fun n => if n = 0 then .err kReadTO else if n = 1 then .err 9 else .ok) 10 0)).sent = 3 ∧
+    (doQuery ⟨.query, false⟩ (some (downgradingPolicyL [4, 1])) (fun n => if n = 0 then .err kReadTO else if n = 1 then .err 9 else .ok)
+      ExecutorConc.allUp 10 [1, 2, 3] 0 0 6).attempts.length = 3 := by decide
 
 /-! ### cancellation at every point of concurrent executions (`ExecutorConc.MC`, `stepC`)
 
